@@ -66,6 +66,9 @@ MUTANTS = [
     ('c05-condition-matched-by-name-only-unfixed', 'C05', 'c05', 100, 'python/experiment/model/graph.py',
      "[c for c in all_looped_ids if int(c[0]) == cond_stage and c[1].split('#', 1)[1] == cond_name]",
      "[c for c in all_looped_ids if c[1].split('#', 1)[1] == cond_name]"),
+    ('c05-sequential-reference-rewrite-unfixed', 'C05', 'c05', 150, 'python/experiment/model/frontends/flowir.py',
+     "        value = re.sub(pattern, substitute, value)\n",
+     "        for _m in list(rewrites):\n            value = re.sub(r'\\b' + re.escape(_m) + r'\\b', rewrites[_m].replace('\\\\', '\\\\\\\\'), value, 1)\n"),
     ('c14-instance-description-written-in-place', 'C14', 'c14rt', 192, 'python/experiment/model/conf.py',
      "        temp_file = '%s.%s.tmp' % (instance_file, uuid.uuid4())\n", "        temp_file = instance_file\n"),
     ('c14-status-written-in-place', 'C14', 'c14rt', 192, 'python/experiment/model/data.py',
